@@ -134,6 +134,27 @@ var c11Modes = []c11Mode{
 	{"v13-wild", "smax=0304 sname=612e76657269662e74657374"},                                       // a.verif.test
 	{"v13-fp", "src=fp smax=0304"},
 	{"v12-fp-rmsni", "src=fp smax=0303 rmsni=1"},
+	// the name edited after the hello was built once (Handshake builds it again)
+	{"v13-post-rmext", "smax=0304 post=rmext"},
+	{"v12-post-rmext", "smax=0303 post=rmext"},
+	{"v13-post-setsni", "smax=0304 post=setsni:76657269662e74657374"},   // SetSNI("verif.test")
+	{"v12-post-setsni-dot", "smax=0303 post=setsni:76657269662e746573742e"}, // SetSNI("verif.test."): sent without the dot
+	{"v13-post-extname", "smax=0304 post=extname:612e76657269662e74657374"}, // extension renamed to a.verif.test
+	{"v12-post-rmext-fp", "src=fp smax=0303 post=rmext"},
+	{"v13-build2", "smax=0304 pre=build2"},
+	{"v13-direct-rmsni", "smax=0304 pre=direct rmsni=1"},
+	{"v12-nosess-rmsni", "smax=0303 pre=nosess rmsni=1"},
+	{"v13-nosess", "smax=0304 pre=nosess"},
+	// client authentication (the client's Certificate / CertificateVerify follow the server Finished)
+	{"v13-cauth-request", "smax=0304 cauth=request"},
+	{"v13-cauth-require", "smax=0304 cauth=require"},
+	{"v13-cauth-requestcert", "smax=0304 cauth=requestcert"},
+	{"v12-cauth-request", "smax=0303 cauth=request"},
+	{"v12-cauth-require", "smax=0303 cauth=require"},
+	{"v13-renegnever-cauth-require", "src=custom mods=reneg=never smax=0304 cauth=require"},
+	{"v13-renegnever-cauth-request", "src=custom mods=reneg=never smax=0304 cauth=request"},
+	{"v12-renegnever-cauth-require", "src=custom mods=reneg=never smax=0303 cauth=require"},
+	{"v13-resumed-cauth", "smax=0304 resume=1 cauth=require"},
 	// ECH (only ids whose spec carries an ECH extension)
 	{"v13-ech", "smax=0304 ech=1 sname=76657269662e74657374"},
 	{"v13-ech-hrr", "smax=0304 ech=1 sname=76657269662e74657374 curves=%H"},
@@ -213,7 +234,8 @@ func c11Gen(r *Rng, i int, tier string) string {
 	seed := r.U64() >> 1
 	toks := fmt.Sprintf("id=Golang-0 src=%s seed=%d", src, seed)
 	cfg := []string{"smax=0304", "smax=0303", "smax=0304 resume=1", "smax=0303 resume=1", "smax=0304 rmsni=1", "smax=0303 rmsni=1",
-		"smax=0304 curves=24", "smax=0304 sname=3132372e302e302e31"}[r.Intn(8)]
+		"smax=0304 curves=24", "smax=0304 sname=3132372e302e302e31", "smax=0304 post=rmext", "smax=0303 pre=nosess rmsni=1",
+		"smax=0304 cauth=require", "smax=0303 cauth=request"}[r.Intn(12)]
 	return fmt.Sprintf("%s %s ekm=%s mode=rand", toks, cfg, c11Probes(r, 3))
 }
 
